@@ -236,7 +236,19 @@ var Tails = []struct {
 
 // Endless builds programs that never end by themselves.
 func Endless(r *prng.R) (string, []core.Event) {
-	switch r.Intn(11) {
+	switch r.Intn(17) {
+	case 11:
+		return "p := {x:0 y:0}\nwhile true\n    p.x = p.x + 1\n    p.y = p.x\nend\n", nil
+	case 12:
+		return "g := {pos:{x:1 y:2} n:0}\nfunc step\n    g.n = g.n + 1\n    g.pos.x = g.pos.x + g.pos.y\nend\nwhile true\n    step\nend\n", nil
+	case 13:
+		return "arr := [1 2 3]\ni := 0\nwhile true\n    arr[i % 3] = arr[(i + 1) % 3] + 1\n    i = i + 1\n    s := arr[1:]\n    s = s + [i]\nend\n", nil
+	case 14:
+		return "a:any\na = 1\nn := 0\nwhile true\n    n = n + a.(num)\n    a = n % 7\n    b := (n > 3 and n < 100) or !(n == 5)\n    b = !b\nend\n", nil
+	case 15:
+		return "m := {a:[1 2] b:[3]}\non key k:string\n    while true\n        m.a = m.a + [(len k)]\n        m.b = m.a[:1]\n        if (len m.a) > 50\n            m.a = [1]\n        end\n    end\nend\n", []core.Event{{Name: "key", Str: []string{"a"}}}
+	case 16:
+		return "s := \"abc\"\nwhile true\n    c := s[0]\n    t := s[1:] + c\n    s = t\n    for ch := range s\n        c = ch\n    end\nend\n", nil
 	case 8:
 		return "x := 0\nwhile true\n    x = x + 1\n    sleep 0\nend\n", nil
 	case 9:
